@@ -101,6 +101,11 @@ static bool bloom_filter_block_check(const uint32_t* block, uint64_t hash) {
  */
 
 carquet_bloom_filter_t* carquet_bloom_filter_create(size_t num_bytes) {
+    /* Rounding up to a whole block must not wrap around size_t */
+    if (num_bytes > SIZE_MAX - (BLOOM_FILTER_BLOCK_SIZE - 1)) {
+        return NULL;
+    }
+
     /* Ensure size is a multiple of block size */
     if (num_bytes < BLOOM_FILTER_BLOCK_SIZE) {
         num_bytes = BLOOM_FILTER_BLOCK_SIZE;
